@@ -198,6 +198,9 @@ func runParse(c J) J {
 		}
 		numberLeaves(tree, pos)
 		obs["tree"] = tree
+		if jbool(c, "notree") {
+			obs["tree"] = []any{}
+		}
 		if w.raws == nil {
 			w.raws = []any{}
 		}
